@@ -55,6 +55,7 @@ SPEC = [
                                   "BulletGenerator.get_bullet_fmt"]),
     ("namespace.py", ["find_by_qn", "findall_by_qn"]),
     ("docx_context.py", ["NumIdAttrs", "collect_numAttrs"]),
+    ("docx_output.py", ["DocxContent._get_pars", "DocxContent.header_pars", "DocxContent.footer_pars", "DocxContent.officeDocument_pars", "DocxContent.body_pars", "DocxContent.footnotes_pars", "DocxContent.endnotes_pars", "DocxContent.document_pars", "DocxContent.header_runs", "DocxContent.footer_runs", "DocxContent.officeDocument_runs", "DocxContent.body_runs", "DocxContent.footnotes_runs", "DocxContent.endnotes_runs", "DocxContent.document_runs", "DocxContent.header", "DocxContent.footer", "DocxContent.officeDocument", "DocxContent.body", "DocxContent.footnotes", "DocxContent.endnotes", "DocxContent.document", "DocxContent.text"]),
 ]
 
 EXN = {"ValueError", "KeyError", "IndexError", "TypeError", "AttributeError", "StopIteration"}
@@ -66,7 +67,9 @@ BUILTINS = {"divmod": ("py_divmod", 2), "len": ("py_len", 1), "enumerate": ("py_
 EXTERNAL = {"get_prefixed_tag": "ptag", "get_localname": "localname"}
 # functions of other modules that are NOT translated: they become explicit function parameters
 # `ext_<name>` of every translated function that (transitively) calls them
-EXTERNAL_FN = {"get_html_formatting": 2, "find_parent_by_qn": 2}
+EXTERNAL_FN = {"get_html_formatting": 2, "find_parent_by_qn": 2, "files_of_type": 2}
+# methods of untranslated objects, called as obj.m(args): parameters `ext_<m>` applied to the receiver and the arguments
+EXTERNAL_METHODS = {"files_of_type": 1}
 METHODS = {("join", 1): "py_join", ("replace", 2): "py_replace", ("upper", 0): "py_upper",
            ("split", 0): "py_split_ws", ("get", 1): "py_dict_get", ("get", 2): "py_dict_get2",
            ("split", 1): "py_split_on", ("iterfind", 1): "py_iterfind",
@@ -570,6 +573,13 @@ class Fn:
                 t = self.fresh()
                 fuel = "fuel " if self.tr.fuelled.get(mq) else ""
                 L.append(self.bindline(mode, t, f"{mangle(mq)} {fuel}{' '.join([f'ext_{x}' for x in exts] + [self.v('self')] + args)}"))
+                return t
+            if isinstance(f, ast.Attribute) and f.attr in EXTERNAL_METHODS and EXTERNAL_METHODS[f.attr] == len(e.args):
+                recv = go(f.value)
+                args = [go(a) for a in e.args]
+                self.externals.add(f.attr)
+                t = self.fresh()
+                L.append(self.bindline(mode, t, f"ext_{f.attr} {recv} {' '.join(args)}"))
                 return t
             if isinstance(f, ast.Attribute):
                 key = (f.attr, len(e.args))
